@@ -621,6 +621,21 @@ func (c *stepCtx) modelViolation(outcomes []MOutcome, prev, obs MState, obsValid
 		if strings.Contains(why, "representable") || strings.Contains(why, "no time given") || strings.Contains(why, "no record at the selected date") {
 			prop = "C17"
 		}
+		if op.Kind == "stop" && op.Args.DateSel != "explicit" && op.Args.Time == nil && obsValid && len(prev) == len(obs) {
+			// C17: "stop falls back to yesterday's record only when there is no record for today"
+			clk := mkClock(c.clock)
+			ty, tm, td := clk.targetDate(&op.Args)
+			py, pm, pd := addDays(ty, tm, td, -1)
+			if len(prev.candidates(dateKey(ty, tm, td))) > 0 {
+				for i := range prev {
+					if prev[i].key() == dateKey(py, pm, pd) && !recEqual(&prev[i], &obs[i]) {
+						prop = "C17"
+						rule = "fell-back-although-record-exists"
+						detail = fmt.Sprintf("a record for the selected date exists (it cannot be stopped: %s), yet the open range of the previous day's record was closed: %s", why, obs[i].String())
+					}
+				}
+			}
+		}
 	default:
 		exp := "<none>"
 		for _, o := range outcomes {
